@@ -56,11 +56,29 @@ def lsq_sites(ctx):
     return fi, fv, out
 
 
-def _levels_conv(ctx, fv, extra_env=None):
+def _levels_conv(ctx, fv, extra_env=None, sign=1):
+    """converter for expressions in the intensity levels; `min(a, b)` / `max(a, b)` whose arguments differ by a multiple of
+    (vmax − vmin) are resolved for the case vmax > vmin (sign = +1) or vmax < vmin (sign = −1)"""
     m = ctx.model
     env = {}
     env.update(extra_env or {})
-    return Converter(resolve_dotted=lambda s: m.resolve(fv.mod, s) or s, env=env, opaque_calls=True)
+
+    def hook(cv, call, name):
+        short = (name or "").split(".")[-1]
+        if short in ("min", "max", "minimum", "maximum", "fmin", "fmax") and len(call.args) == 2 and not call.keywords:
+            a, b = cv.conv(call.args[0]), cv.conv(call.args[1])
+            lv = linear_in_levels(a - b)
+            if lv is None or lv[0] != -lv[1]:
+                return None
+            k = lv[0] * sign  # sign of a − b
+            if k == 0:
+                return a
+            a_smaller = k < 0
+            want_min = short in ("min", "minimum", "fmin")
+            return a if (a_smaller == want_min) else b
+        return None
+
+    return Converter(resolve_dotted=lambda s: m.resolve(fv.mod, s) or s, env=env, opaque_calls=True, call_hook=hook)
 
 
 def linear_in_levels(e: Expr):
@@ -252,14 +270,32 @@ def check_pack(ctx, rules=("PACK", "AFFINE", "FEASIBLE")):
             for i in range(len(X0)):
                 lo_gap, hi_gap = linear_in_levels(X0[i] - LO[i]), linear_in_levels(HI[i] - X0[i])
 
-                def nonneg_multiple(g):
-                    return g is not None and g[0] == -g[1] and g[0] >= 0
+                def nonneg_multiple(g, sgn=1):
+                    return g is not None and g[0] == -g[1] and g[0] * sgn >= 0
 
                 ok = nonneg_multiple(lo_gap) and nonneg_multiple(hi_gap)
                 ctx.decide(ok, "FEASIBLE", f"{site}:slot{i}", (fi, c),
                            f"lower ≤ start ≤ upper for every vmax ≥ vmin (gaps {(X0[i] - LO[i]).show()}, {(HI[i] - X0[i]).show()})",
                            f"start value {X0[i].show()} is not inside [{LO[i].show()}, {HI[i].show()}] for all intensity levels with vmax ≥ vmin "
                            f"(e.g. levels (10, 11)): least_squares raises `Initial guess is outside of provided bounds`")
+            # the levels may also be inverted (vmin > vmax: dark droplets, or an automatic vmin above the default vmax = 1):
+            # nothing orders them before the fit, so the same feasibility is owed for vmax < vmin
+            cvn = _levels_conv(ctx, fv, env_outer, sign=-1)
+            try:
+                X0n = [cvn.conv(e) for e in x0_extra]
+                LOn = [cvn.conv(e) for e in lo_extra]
+                HIn = [cvn.conv(e) for e in hi_extra]
+            except NotAlgebraic:
+                X0n = LOn = HIn = None
+            if X0n is not None and len(X0n) == len(LOn) == len(HIn):
+                for i in range(len(X0n)):
+                    lo_gap, hi_gap = linear_in_levels(X0n[i] - LOn[i]), linear_in_levels(HIn[i] - X0n[i])
+                    ok = nonneg_multiple(lo_gap, -1) and nonneg_multiple(hi_gap, -1)
+                    ctx.decide(ok, "FEASIBLE", f"{site}:slot{i}[vmax<vmin]", (fi, c),
+                               f"lower ≤ start ≤ upper also for inverted levels vmax < vmin (gaps {(X0n[i] - LOn[i]).show()}, {(HIn[i] - X0n[i]).show()})",
+                               f"for inverted levels (vmax < vmin) the interval of slot {i} is [{LOn[i].show()}, {HIn[i].show()}] with start {X0n[i].show()}: lower > upper, so least_squares raises "
+                               "`Each lower bound must be strictly less than each upper bound` — e.g. refine_args={'adjust_values': True, 'vmin': None} on an image with values above the default vmax = 1, "
+                               "or explicit levels of a dark droplet (vmin=1, vmax=0)")
             if "STRICT" in rules:
                 _strict_bounds(ctx, fi, fv, c, site, LO, HI, assume)
 
